@@ -523,6 +523,10 @@ func init() {
 		RunCase: func(c *CaseCtx) *CaseResult {
 			nPersist := tierN(c.Tier, 6, 40)
 			if c.Idx < nPersist {
+				if c.Idx%3 == 2 {
+					// one change of every kind at a time, nothing else going on
+					return simpleCase(c, drv.RunPersistKindsCase(c.Seed, c.Idx%6 == 5), 3)
+				}
 				return simpleCase(c, drv.RunPersistCase(c.Seed, c.Idx%2 == 1), 3)
 			}
 			nBin := tierN(c.Tier, 2, 24)
